@@ -120,9 +120,12 @@ def search(rep: C.Report, tier: str, broken):
     from WallGo.containers import WallParams, BoltzmannDeltas
     from WallGo.polynomial import Polynomial
     r = C.rng("C04search")
-    cases = [("toy1", {}), ("toy2", {})] if tier == "quick" else [("toy1", {}), ("toy2", {}), ("toy1", dict(E=0.07, lam=0.12)), ("toy2", dict(kap=0.8))]
-    for kind, params in cases:
-        o = EC.make_eom(kind, params, M=30)
+    # toy2c: two-step model, BOTH fields move across the wall (toy2: only one does)
+    cases = [("toy1", {}, 1e-3), ("toy2c", {}, 1e-3), ("toy2c", {}, 1e-5)] if tier == "quick" else \
+        [("toy1", {}, 1e-3), ("toy2", {}, 1e-3), ("toy2c", {}, 1e-3), ("toy2c", {}, 1e-5), ("toy1", {}, 1e-5), ("toy1", dict(E=0.07, lam=0.12), 1e-3),
+         ("toy2", dict(kap=0.8), 1e-4)]
+    for kind, params, errTol in cases:
+        o = EC.make_eom(kind, params, M=30, errTol=errTol)
         eom, th, h, grid = o["eom"], o["thermo"], o["hydro"], o["grid"]
         nf = eom.nbrFields
         Tn = th.Tnucl
@@ -149,7 +152,7 @@ def search(rep: C.Report, tier: str, broken):
                 fields, dphi = eom.wallProfile(grid.xiValues, lowv, highv, wp)
                 Tprof, vprof = eom.findPlasmaProfile(c1, c2, vmid, fields, dphi, deltas, Tp, Tm)
                 branch = "detonation" if vw > h.vJ else "deflag/hybrid"
-                info = {"model": kind, "params": params, "vw": vw, "branch": branch, "widths_Tn": (W * Tn).tolist(), "offsets": off.tolist(),
+                info = {"model": kind, "params": params, "errTol": errTol, "vw": vw, "branch": branch, "widths_Tn": (W * Tn).tolist(), "offsets": off.tolist(),
                         "c1": float(c1), "c2": float(c2), "Tp": float(Tp), "Tm": float(Tm)}
                 rep.count(f"profiles {branch}")
                 if not eom.successTemperatureProfile:
@@ -166,9 +169,9 @@ def search(rep: C.Report, tier: str, broken):
                     e = max(abs(t30 - c1) / abs(c1), abs(t33 - c2) / abs(c2))
                     if e > worst[0]:
                         worst = (e, i)
-                rep.case(key=(kind, branch, round(vw, 2), shape), sample=dict(info, worst_rel_residual=worst[0]) if len(rep.samples) < 4 else None)
-                # the bracketed root is found to rtol = errTol/10 = 1e-4 in T; T33 ~ T^4 => residual up to ~4e-4 of c2
-                if worst[0] > 1e-3:
+                rep.case(key=(kind, errTol, branch, round(vw, 2), shape), sample=dict(info, worst_rel_residual=worst[0]) if len(rep.samples) < 4 else None)
+                # the bracketed root is found to rtol = errTol/10 in T; T33 ~ T^4 => residual up to ~4 errTol/10 of c2
+                if worst[0] > errTol:
                     i = worst[1]
                     # no-root branch: the residual minimum is >= 0 and the minimiser is returned with the success flag still set
                     fp, dp = fields.getFieldPoint(i), dphi.getFieldPoint(i)
